@@ -1,10 +1,11 @@
 (** Extraction of the executable C17 model to OCaml (ExtrOcamlBasic only). *)
 From Coq Require Import Extraction ExtrOcamlBasic List ZArith.
-From Celer Require Import C17.Gather C17.Loop C17.Multi.
+From Celer Require Import C17.Gather C17.Loop C17.Multi C17.Copy.
 Extraction Language OCaml.
 Extraction "gather_model.ml"
   row0 collector_step gather_pre gather_post delivered expected mask row_valid
   copy_steps calo_accum calo_slot tally0 tally_list
   action_accum action_step stepdiag_accum counts0 counts_table has_det has_pre_action
   core_slot sim_init sim_increment
-  step_params_build calo_total counts_total sel_union sel_any.
+  step_params_build calo_total counts_total sel_union sel_any
+  copy_steps_into det_output0 scored_hits.
